@@ -121,41 +121,35 @@ theorem innerOut_eq_runG (tk : Tokenize) (ev : Bytes → Bytes → Bool) (codec 
   rw [innerFeed_eq_feedG]
   rfl
 
-/-- **Compressed ≡ decompressed for html (and text) filters at safe flush points.**  Under the codec laws, if the
-decoded body `b` is not empty, no inner call fails, and every inner stage is safe (`SafeG`, C03's executable
-safe-cut hypothesis) on the pieces it receives both when the chain is fed the decoder's outputs and when it is fed `b`
-as one chunk, then the output of the compressed chain decodes to the plain result. -/
-theorem compressed_equiv_safe (tk : Tokenize) (ev : Bytes → Bytes → Bool) (codec : Codec D E) {d0 : D} {e0 : E}
-    {decode : Bytes → Option Bytes} (laws : CodecLaws codec d0 e0 decode)
-    (inner : List (Stage D E)) (hp : AllPlain inner) (z b : Bytes) (hz : decode z = some b) (hb : b ≠ [])
+/-- **Compressed ≡ decompressed for html (and text) filters, every flush point.**  Under the codec laws and the restart
+law of the stream tokenizer (`RestartLaw`, every cut is safe since fe7eac6): for fresh inner stages (`StageInit`: as
+`FilterBodyAction::new` builds them), if no inner call fails — neither when the chain is fed the decoder's outputs nor
+when it is fed `b` as one chunk — the output of the compressed chain decodes to the plain result.  No hypothesis on where
+the decoder flushes. -/
+theorem compressed_equiv_html (tk : Tokenize) (ev : Bytes → Bytes → Bool) (codec : Codec D E) {d0 : D} {e0 : E}
+    {decode : Bytes → Option Bytes} (laws : CodecLaws codec d0 e0 decode) (hl : LosslessS tk) (hr : RestartLaw tk)
+    (inner : List (Stage D E)) (hp : AllPlain inner) (hinit : ∀ st ∈ inner, StageInit tk st)
+    (z b : Bytes) (hz : decode z = some b)
     (cs : List Bytes) (hcs : cs.flatten = z)
-    (hsafe : ∀ ps pe, decRun codec d0 cs = some (ps, pe) →
-      SafeG tk ev codec inner (nonEmpty ps) (optB pe) ∧ runG tk ev codec inner (nonEmpty ps) (optB pe) ≠ none)
-    (hsafe1 : SafeG tk ev codec inner [b] none) (hok1 : runG tk ev codec inner [b] none ≠ none) :
+    (hok : ∀ ps pe, decRun codec d0 cs = some (ps, pe) → runG tk ev codec inner (nonEmpty ps) (optB pe) ≠ none)
+    (hok1 : runG tk ev codec inner [b] none ≠ none) :
     decode (({ items := .decode d0 :: inner ++ [.encode e0] } : Chain D E).run tk ev codec cs) =
       some (({ items := inner } : Chain D E).run tk ev codec [b]) := by
   obtain ⟨ps, pe, h1, h2, h3⟩ := compressed_equiv tk ev codec laws inner z b hz cs hcs
   apply h3
   unfold ChunkInvariantOn
-  obtain ⟨s1, s2⟩ := hsafe ps pe h1
+  have s2 := hok ps pe h1
   rw [innerOut_eq_runG]
-  cases hr : runG tk ev codec inner (nonEmpty ps) (optB pe) with
-  | none => exact absurd hr s2
+  cases hr' : runG tk ev codec inner (nonEmpty ps) (optB pe) with
+  | none => exact absurd hr' s2
   | some out =>
     cases hr1 : runG tk ev codec inner [b] none with
     | none => exact absurd hr1 hok1
     | some out1 =>
       rw [run_of_runG tk ev codec [b] inner out1 hr1]
       congr 1
-      apply runG_stream tk ev codec inner (nonEmpty ps) (optB pe) [b] none out out1 hp _ _ s1 hsafe1 hr hr1
-      · rw [nonEmpty_flatten, optB_getD]; simpa using h2
-      · left
-        refine ⟨?_, by simp⟩
-        intro hc
-        apply hb
-        have := congrArg List.flatten hc
-        rw [List.flatten_append, nonEmpty_flatten, optB_toList_flatten] at this
-        rw [← h2]; simpa using this
+      apply runG_stream tk ev codec hl hr inner (nonEmpty ps) (optB pe) [b] none out out1 hp hinit _ hr' hr1
+      rw [nonEmpty_flatten, optB_getD]; simpa using h2
 
 /-! ### the shape of the chain `FilterBodyAction::new` builds -/
 
@@ -229,10 +223,10 @@ theorem idCodec_laws : CodecLaws idCodec () () (fun z => some z) := by
 /-- `compressed_equiv_text` instantiated: the hypotheses are satisfiable and the conclusion is about a real run. -/
 example (cs : List Bytes) :
     (({ items := .decode () :: [.text { action := .prepend, content := [80] }, .text { action := .append, content := [65] }] ++ [.encode ()] } : Chain Unit Unit).run
-        (fun d => ([], d)) (fun _ _ => false) idCodec cs) =
+        { plain := fun d => ([], d), stream := fun c d => ([], d, c) } (fun _ _ => false) idCodec cs) =
       (({ items := [.text { action := .prepend, content := [80] }, .text { action := .append, content := [65] }] } : Chain Unit Unit).run
-        (fun d => ([], d)) (fun _ _ => false) idCodec [cs.flatten]) := by
-  have := compressed_equiv_text (fun d => ([], d)) (fun _ _ => false) idCodec idCodec_laws
+        { plain := fun d => ([], d), stream := fun c d => ([], d, c) } (fun _ _ => false) idCodec [cs.flatten]) := by
+  have := compressed_equiv_text { plain := fun d => ([], d), stream := fun c d => ([], d, c) } (fun _ _ => false) idCodec idCodec_laws
     [.text { action := .prepend, content := [80] }, .text { action := .append, content := [65] }]
     (by intro st h; simp at h; rcases h with rfl | rfl <;> exact ⟨_, rfl⟩)
     cs.flatten cs.flatten rfl cs rfl
